@@ -7,126 +7,108 @@ From E57 Require Import Base.Prelude Model.PagedReader Model.BsRead Model.Record
   Model.SimpleIter Proofs.SimpleRun.
 Open Scope N_scope.
 
-(** * [available] over a list of queues *)
-Definition avail (qs : list (list rvalue)) : N :=
-  match qs with
-  | [] => 0
-  | x :: r => fold_left (fun m y => N.min m (len y)) r (len x)
-  end.
+(** * [available]: the shortest queue among the records of non-zero bit size *)
+Definition avail (proto : list dtype) (qs : list (list rvalue)) : N :=
+  match avail_sized proto qs None with Some m => m | None => 0 end.
 
-Lemma qr_available_avail q : qr_available q = avail (q_queues q).
+Lemma qr_available_avail q : qr_available q = avail (q_proto q) (q_queues q).
 Proof. reflexivity. Qed.
-
-Definition shorter (q q' : list rvalue) : Prop := len q = 1 + len q'.
 
 Lemma len_cons {X} (x : X) l : len (x :: l) = 1 + len l.
 Proof. unfold len. cbn [length]. lia. Qed.
 
-Lemma fmin_pop : forall r r' a a', Forall2 shorter r r' -> a = 1 + a' ->
-  fold_left (fun m y => N.min m (len y)) r a = 1 + fold_left (fun m y => N.min m (len y)) r' a'.
+(** both [None], or both [Some] with a difference of one *)
+Definition optrel (a b : option N) : Prop :=
+  match a, b with
+  | Some x, Some y => x = 1 + y
+  | None, None => True
+  | _, _ => False
+  end.
+
+Lemma avail_sized_pop : forall proto qs vs qs' acc acc',
+  pop_fronts proto qs = Ok (vs, qs') -> optrel acc acc' ->
+  optrel (avail_sized proto qs acc) (avail_sized proto qs' acc').
 Proof.
-  intros r r' a a' HF. revert a a'. induction HF as [|y y' r r' Hy HF IH]; intros a a' Ha; cbn [fold_left].
-  - exact Ha.
-  - apply IH. unfold shorter in Hy. lia.
+  induction proto as [|t proto IH]; intros qs vs qs' acc acc' H Hacc.
+  - destruct qs; cbn [pop_fronts] in H; injection H as <- <-; exact Hacc.
+  - destruct qs as [|q r]; [cbn [pop_fronts] in H; injection H as <- <-; exact Hacc|].
+    cbn [pop_fronts] in H.
+    match type of H with
+    | match ?one with _ => _ end = _ => destruct one as [[v q']| |] eqn:E1; try discriminate
+    end.
+    destruct (pop_fronts proto r) as [[vs1 r1]| |] eqn:E2; try discriminate.
+    injection H as <- <-. cbn [avail_sized].
+    destruct (bit_size t =? 0) eqn:Eb.
+    + assert (q' = q) as ->.
+      { destruct t; try (vm_compute in Eb; discriminate); rewrite Eb in E1; injection E1 as _ <-; reflexivity. }
+      eapply IH; eassumption.
+    + assert (Hq : len q = 1 + len q').
+      { destruct t; try rewrite Eb in E1; (destruct q as [|v0 q0]; [discriminate|]); injection E1 as _ <-; apply len_cons. }
+      eapply IH; [exact E2|]. destruct acc as [a|], acc' as [a'|]; cbn [optrel] in *; try contradiction; lia.
 Qed.
 
-Lemma avail_pop qs qs' : qs <> [] -> Forall2 shorter qs qs' -> avail qs = 1 + avail qs'.
+Lemma avail_pop_fronts proto qs vs qs' : 1 <= avail proto qs -> pop_fronts proto qs = Ok (vs, qs') ->
+  avail proto qs = 1 + avail proto qs'.
 Proof.
-  intros Hne HF. destruct HF as [|x x' r r' Hx HF]; [congruence|]. cbn [avail].
-  apply fmin_pop; assumption.
+  intros H E. unfold avail in *. pose proof (avail_sized_pop proto qs vs qs' None None E I) as R.
+  destruct (avail_sized proto qs None) as [m|], (avail_sized proto qs' None) as [m'|]; cbn [optrel] in R;
+    try contradiction; lia.
 Qed.
 
-Lemma fmin_le_all : forall (r : list (list rvalue)) a, fold_left (fun m y => N.min m (len y)) r a <= a /\
-  forall y, In y r -> fold_left (fun m y => N.min m (len y)) r a <= len y.
+Lemma avail_sized_le : forall proto qs acc m, avail_sized proto qs acc = Some m ->
+  forall a, acc = Some a -> m <= a.
 Proof.
-  induction r as [|x r IH]; intros a; cbn [fold_left].
-  - split; [lia|]. intros y [].
-  - destruct (IH (N.min a (len x))) as [H1 H2]. split; [lia|].
-    intros y [<-|Hy]; [lia|]. apply H2. exact Hy.
+  induction proto as [|t proto IH]; intros qs acc m H a Ha.
+  - destruct qs; cbn [avail_sized] in H; rewrite Ha in H; injection H as <-; lia.
+  - destruct qs as [|q r]; [cbn [avail_sized] in H; rewrite Ha in H; injection H as <-; lia|].
+    cbn [avail_sized] in H. destruct (bit_size t =? 0).
+    + eapply IH; eassumption.
+    + subst acc. pose proof (IH _ _ _ H _ eq_refl). lia.
 Qed.
 
-Lemma avail_le_all qs y : In y qs -> avail qs <= len y.
+Lemma pop_fronts_ok : forall proto qs acc m, avail_sized proto qs acc = Some m -> 1 <= m ->
+  exists vs qs', pop_fronts proto qs = Ok (vs, qs').
 Proof.
-  destruct qs as [|x r]; [intros []|]. cbn [avail]. destruct (fmin_le_all r (len x)) as [H1 H2].
-  intros [<-|Hy]; [exact H1|]. apply H2. exact Hy.
+  induction proto as [|t proto IH]; intros qs acc m H Hm.
+  - destruct qs; eexists _, _; reflexivity.
+  - destruct qs as [|q r]; [eexists _, _; reflexivity|].
+    cbn [avail_sized] in H. cbn [pop_fronts].
+    destruct (bit_size t =? 0) eqn:Eb.
+    + destruct (IH _ _ _ H Hm) as (vs & qs' & E). rewrite E.
+      destruct t; try (vm_compute in Eb; discriminate); rewrite Eb; eexists _, _; reflexivity.
+    + pose proof (avail_sized_le _ _ _ _ H _ eq_refl) as Hle.
+      assert (Hq : 1 <= len q) by (destruct acc; lia).
+      destruct q as [|v q']; [unfold len in Hq; cbn [length] in Hq; lia|].
+      destruct (IH _ _ _ H Hm) as (vs & qs' & E). rewrite E.
+      destruct t; try rewrite Eb; eexists _, _; reflexivity.
 Qed.
 
-(** * [pop_fronts] *)
-
-Lemma pop_fronts_shorter : forall qs vs qs', pop_fronts qs = Ok (vs, qs') -> Forall2 shorter qs qs'.
+Lemma pop_fronts_avail proto qs : 1 <= avail proto qs -> exists vs qs', pop_fronts proto qs = Ok (vs, qs').
 Proof.
-  induction qs as [|q r IH]; intros vs qs' H; cbn [pop_fronts] in H.
-  - injection H as <- <-. constructor.
-  - destruct q as [|v q]; [discriminate|].
-    destruct (pop_fronts r) as [[vs1 r1]| |] eqn:E; try discriminate.
-    injection H as <- <-. constructor; [|eapply IH; reflexivity].
-    unfold shorter. apply len_cons.
-Qed.
-
-Lemma pop_fronts_nonempty : forall qs, Forall (fun q => q <> []) qs -> exists vs qs', pop_fronts qs = Ok (vs, qs').
-Proof.
-  induction qs as [|q r IH]; intros HF.
-  - eexists _, _. reflexivity.
-  - inversion HF as [|? ? Hq Hr]; subst. destruct q as [|v q]; [congruence|].
-    destruct (IH Hr) as (vs & qs' & E). cbn [pop_fronts]. rewrite E. eexists _, _. reflexivity.
-Qed.
-
-Lemma pop_fronts_avail qs : 1 <= avail qs -> exists vs qs', pop_fronts qs = Ok (vs, qs').
-Proof.
-  intros H. apply pop_fronts_nonempty. apply Forall_forall. intros y Hy ->.
-  pose proof (avail_le_all qs [] Hy) as H1. unfold len in H1. cbn [length] in H1. lia.
-Qed.
-
-Lemma avail_pop_fronts qs vs qs' : 1 <= avail qs -> pop_fronts qs = Ok (vs, qs') -> avail qs = 1 + avail qs'.
-Proof.
-  intros H E. apply avail_pop; [|eapply pop_fronts_shorter; exact E].
-  intros ->. cbn [avail] in H. lia.
+  unfold avail. destruct (avail_sized proto qs None) as [m|] eqn:E; [|lia].
+  intros H. eapply pop_fronts_ok; eassumption.
 Qed.
 
 (** * [pop_raws] *)
 
-Lemma pop_raws_avail : forall n qs, N.of_nat n <= avail qs ->
-  exists P qs', pop_raws n qs = Ok (P, qs') /\ length P = n /\ avail qs = N.of_nat n + avail qs'.
+Lemma pop_raws_avail : forall n proto qs, N.of_nat n <= avail proto qs ->
+  exists P qs', pop_raws n proto qs = Ok (P, qs') /\ length P = n /\ avail proto qs = N.of_nat n + avail proto qs'.
 Proof.
-  induction n as [|n IH]; intros qs H; cbn [pop_raws].
+  induction n as [|n IH]; intros proto qs H; cbn [pop_raws].
   - eexists _, _. split; [reflexivity|]. split; [reflexivity|]. lia.
-  - destruct (pop_fronts_avail qs ltac:(lia)) as (vs & qs1 & E). rewrite E.
-    pose proof (avail_pop_fronts qs vs qs1 ltac:(lia) E) as Ha.
-    destruct (IH qs1 ltac:(lia)) as (P & qs' & E' & HL & Ha'). rewrite E'.
+  - destruct (pop_fronts_avail proto qs ltac:(lia)) as (vs & qs1 & E). rewrite E.
+    pose proof (avail_pop_fronts proto qs vs qs1 ltac:(lia) E) as Ha.
+    destruct (IH proto qs1 ltac:(lia)) as (P & qs' & E' & HL & Ha'). rewrite E'.
     eexists _, _. split; [reflexivity|]. cbn [length]. split; [congruence|]. lia.
 Qed.
 
-Lemma pop_raws_app : forall a b qs Pa qa Pb qb,
-  pop_raws a qs = Ok (Pa, qa) -> pop_raws b qa = Ok (Pb, qb) -> pop_raws (a + b) qs = Ok (Pa ++ Pb, qb).
+Lemma pop_raws_length : forall n proto qs P qs', pop_raws n proto qs = Ok (P, qs') -> length P = n.
 Proof.
-  induction a as [|a IH]; intros b qs Pa qa Pb qb Ha Hb; cbn [pop_raws Nat.add] in *.
-  - injection Ha as <- <-. exact Hb.
-  - destruct (pop_fronts qs) as [[vs qs1]| |]; try discriminate.
-    destruct (pop_raws a qs1) as [[P1 q1]| |] eqn:E; try discriminate.
-    injection Ha as <- <-. rewrite (IH b qs1 P1 q1 Pb qb E Hb). reflexivity.
-Qed.
-
-Lemma pop_raws_length : forall n qs P qs', pop_raws n qs = Ok (P, qs') -> length P = n.
-Proof.
-  induction n as [|n IH]; intros qs P qs' H; cbn [pop_raws] in H.
+  induction n as [|n IH]; intros proto qs P qs' H; cbn [pop_raws] in H.
   - injection H as <- <-. reflexivity.
-  - destruct (pop_fronts qs) as [[vs qs1]| |]; try discriminate.
-    destruct (pop_raws n qs1) as [[P1 q1]| |] eqn:E; try discriminate.
+  - destruct (pop_fronts proto qs) as [[vs qs1]| |]; try discriminate.
+    destruct (pop_raws n proto qs1) as [[P1 q1]| |] eqn:E; try discriminate.
     injection H as <- <-. cbn [length]. f_equal. eapply IH. exact E.
-Qed.
-
-(** what is pending is a prefix of what is left over *)
-Lemma pending_leftover q records read P qsP :
-  pop_raws (length P) (q_queues q) = Ok (P, qsP) -> N.of_nat (length P) <= qr_available q ->
-  exists tail, leftover (mkRaw q records read) = P ++ tail.
-Proof.
-  intros HP Hle. unfold leftover. cbn [ri_q]. rewrite qr_available_avail in *.
-  destruct (pop_raws_avail (length P) (q_queues q) Hle) as (P' & qs' & E & _ & Ha).
-  rewrite HP in E. injection E as <- <-.
-  destruct (pop_raws_avail (N.to_nat (avail qsP)) qsP ltac:(lia)) as (T & qt & ET & _ & _).
-  pose proof (pop_raws_app _ _ _ _ _ _ _ HP ET) as H.
-  replace (length P + N.to_nat (avail qsP))%nat with (N.to_nat (avail (q_queues q))) in H by lia.
-  rewrite H. exists T. reflexivity.
 Qed.
 
 (** * Typed queues *)
@@ -155,59 +137,53 @@ Proof.
     intros H. eapply unpack_loop_typed; [|exact H|constructor]. reflexivity.
 Qed.
 
-Lemma repeat_typed t v n : value_matches t v = true -> queue_typed t (repeat v n).
-Proof. intros H. unfold queue_typed. apply Forall_forall. intros x Hx. apply repeat_spec in Hx. subst. exact H. Qed.
-
-Lemma parse_streams_typed : forall proto streams queues m ss qs,
+Lemma parse_streams_typed : forall proto streams queues ss qs,
   length streams = length proto -> Forall2 queue_typed proto queues ->
-  parse_streams proto streams queues m = Ok (ss, qs) ->
+  parse_streams proto streams queues = Ok (ss, qs) ->
   length ss = length proto /\ Forall2 queue_typed proto qs.
 Proof.
-  induction proto as [|t proto IH]; intros streams queues m ss qs Hlen HF H.
+  induction proto as [|t proto IH]; intros streams queues ss qs Hlen HF H.
   - destruct streams; cbn [parse_streams] in H; injection H as <- <-; (split; [reflexivity|constructor]).
   - destruct streams as [|s streams]; [discriminate|]. inversion HF as [|? qu ? queues' Hq HF']; subst.
     cbn [length] in Hlen. injection Hlen as Hlen. cbn [parse_streams] in H.
     match type of H with
     | match ?one with _ => _ end = _ => destruct one as [[s1 q1]| |] eqn:E1; try discriminate
     end.
-    destruct (parse_streams proto streams queues' m) as [[ss1 qs1]| |] eqn:E2; try discriminate.
-    injection H as <- <-. destruct (IH _ _ _ _ _ Hlen HF' E2) as [HL HT].
+    destruct (parse_streams proto streams queues') as [[ss1 qs1]| |] eqn:E2; try discriminate.
+    injection H as <- <-. destruct (IH _ _ _ _ Hlen HF' E2) as [HL HT].
     split; [cbn [length]; congruence|]. constructor; [|exact HT].
-    assert (Happ : forall s0 vs, unpack_type t s = Ok (s0, vs) -> queue_typed t (qu ++ vs)).
-    { intros s0 vs Hu. unfold queue_typed. apply Forall_app. split; [exact Hq|].
-      eapply unpack_type_typed. exact Hu. }
-    assert (Hmap : res_map (fun '(s', vs) => (s', qu ++ vs)) (unpack_type t s) = Ok (s1, q1) -> queue_typed t q1).
-    { destruct (unpack_type t s) as [[s0 vs]| |] eqn:Eu; cbn [res_map]; try discriminate.
-      intros H0. injection H0 as <- <-. eapply Happ. reflexivity. }
-    destruct t as [| |mn mx|mn mx].
-    + apply Hmap. exact E1.
-    + apply Hmap. exact E1.
-    + destruct (bit_size (TScaled mn mx) =? 0); [|apply Hmap; exact E1].
-      injection E1 as <- <-. unfold queue_typed. apply Forall_app. split; [exact Hq|].
-      apply repeat_typed. reflexivity.
-    + destruct (bit_size (TInteger mn mx) =? 0); [|apply Hmap; exact E1].
-      injection E1 as <- <-. unfold queue_typed. apply Forall_app. split; [exact Hq|].
-      apply repeat_typed. reflexivity.
+    destruct (bit_size t =? 0).
+    + injection E1 as _ <-. exact Hq.
+    + destruct (unpack_type t s) as [[s0 vs]| |] eqn:Eu; cbn [res_map] in E1; try discriminate.
+      injection E1 as _ <-. unfold queue_typed. apply Forall_app. split; [exact Hq|].
+      eapply unpack_type_typed. exact Eu.
 Qed.
 
-Lemma pop_fronts_typed : forall proto qs vs qs', Forall2 queue_typed proto qs -> pop_fronts qs = Ok (vs, qs') ->
+Lemma pop_fronts_typed : forall proto qs vs qs', Forall2 queue_typed proto qs -> pop_fronts proto qs = Ok (vs, qs') ->
   Forall2 (fun t v => value_matches t v = true) proto vs /\ Forall2 queue_typed proto qs'.
 Proof.
   induction proto as [|t proto IH]; intros qs vs qs' HF H; inversion HF as [|? q ? r Hq HF']; subst;
     cbn [pop_fronts] in H.
   - injection H as <- <-. split; constructor.
-  - destruct q as [|v q]; [discriminate|].
-    destruct (pop_fronts r) as [[vs1 r1]| |] eqn:E; try discriminate. injection H as <- <-.
-    destruct (IH _ _ _ HF' E) as [H1 H2]. inversion Hq; subst. split; constructor; assumption.
+  - match type of H with
+    | match ?one with _ => _ end = _ => destruct one as [[v q']| |] eqn:E1; try discriminate
+    end.
+    destruct (pop_fronts proto r) as [[vs1 r1]| |] eqn:E; try discriminate. injection H as <- <-.
+    destruct (IH _ _ _ HF' E) as [H1 H2].
+    assert (Hv : value_matches t v = true /\ queue_typed t q').
+    { destruct t as [| |mn mx|mn mx]; try destruct (bit_size _ =? 0);
+        try (injection E1 as <- <-; split; [reflexivity|exact Hq]);
+        (destruct q as [|v0 q0]; [discriminate|]); injection E1 as <- <-; inversion Hq; subst; split; assumption. }
+    destruct Hv. split; constructor; assumption.
 Qed.
 
-Lemma pop_raws_typed : forall n proto qs P qs', Forall2 queue_typed proto qs -> pop_raws n qs = Ok (P, qs') ->
+Lemma pop_raws_typed : forall n proto qs P qs', Forall2 queue_typed proto qs -> pop_raws n proto qs = Ok (P, qs') ->
   Forall (fun vs => Forall2 (fun t v => value_matches t v = true) proto vs) P /\ Forall2 queue_typed proto qs'.
 Proof.
   induction n as [|n IH]; intros proto qs P qs' HF H; cbn [pop_raws] in H.
   - injection H as <- <-. split; [constructor|exact HF].
-  - destruct (pop_fronts qs) as [[vs qs1]| |] eqn:E; try discriminate.
-    destruct (pop_raws n qs1) as [[P1 q1]| |] eqn:E1; try discriminate. injection H as <- <-.
+  - destruct (pop_fronts proto qs) as [[vs qs1]| |] eqn:E; try discriminate.
+    destruct (pop_raws n proto qs1) as [[P1 q1]| |] eqn:E1; try discriminate. injection H as <- <-.
     destruct (pop_fronts_typed _ _ _ _ HF E) as [Hv HF1]. destruct (IH _ _ _ _ HF1 E1) as [HP HF2].
     split; [constructor; assumption|exact HF2].
 Qed.
@@ -253,15 +229,14 @@ Section Run.
     - destruct (negb (count =? len (q_streams q))); [discriminate|].
       apply grun_bind_ok in H2. destruct H2 as (s4 & sizes & Hs & H2).
       apply grun_bind_ok in H2. destruct H2 as (s5 & streams & Hst & H2).
-      apply grun_bind_ok in H2. destruct H2 as (s6 & mqs & _ & H2).
-      destruct mqs as [m|]; [|discriminate].
+      destruct (negb (has_sized (q_proto q))); [discriminate|].
       apply grun_bind_ok in H2. destruct H2 as (s7 & [ss qs] & Hp & H2).
       cbn [rret grun] in H2. injection H2 as _ <-. cbn [q_proto q_streams q_queues].
       rewrite grun_rlift in Hp. injection Hp as _ Hp.
       pose proof (read_sizes_length _ _ _ _ Hs) as HL1.
       pose proof (read_streams_length _ _ _ _ _ Hst ltac:(lia)) as HL2.
       assert (HL4 : length streams = length (q_proto q)) by lia.
-      destruct (parse_streams_typed _ _ _ _ _ _ HL4 HF Hp) as [HL3 HT].
+      destruct (parse_streams_typed _ _ _ _ _ HL4 HF Hp) as [HL3 HT].
       split; [split; assumption|reflexivity].
     - destruct (pl <? IGNORED_HEADER_SIZE); [discriminate|].
       apply grun_bind_ok in H2. destruct H2 as (s4 & b & _ & H2). cbn [rret grun] in H2. injection H2 as _ <-.
@@ -279,7 +254,7 @@ Section Run.
     - cbn [rret grun] in H. injection H as _ <-. split; [exact Hwf|]. split; [reflexivity|lia].
   Qed.
 
-  Lemma qr_new_wf fo proto s s' q : grun step (qr_new fo proto) s = (s', Ok q) ->
+  Lemma qr_new_wf fo recs proto s s' q : grun step (qr_new fo recs proto) s = (s', Ok q) ->
     qr_wf q /\ q_proto q = proto /\ q_queues q = map (fun _ => []) proto.
   Proof.
     unfold qr_new. intros H.
